@@ -6,6 +6,8 @@ void GMGPolar::solve()
 {
     LIKWID_START("Solve");
     auto start_solve = std::chrono::high_resolution_clock::now();
+    VERIF_EV("SolveEnter", "\"normsSz\":%d,\"errsSz\":%d,\"fgs\":%d", (int)residual_norms_.size(),
+             (int)exact_errors_.size(), (int)full_grid_smoothing_);
 
     /* ---------------------------- */
     /* Initialize starting solution */
@@ -44,8 +46,16 @@ void GMGPolar::solve()
     double initial_residual_norm          = 0.0;
     double current_residual_norm          = 0.0;
     double current_relative_residual_norm = 1.0;
+    VERIF_EV("SolveBegin",
+             "\"normsSz\":%d,\"errsSz\":%d,\"fgs\":%d,\"fmg\":%d,\"ext\":%d,\"maxIter\":%d,\"absOn\":%d,\"relOn\":%d,"
+             "\"exact\":%d,\"L\":%d,\"rho\":%s",
+             (int)residual_norms_.size(), (int)exact_errors_.size(), (int)full_grid_smoothing_, (int)FMG_,
+             (int)extrapolation_, max_iterations_, (int)absolute_tolerance_.has_value(),
+             (int)relative_tolerance_.has_value(), (int)(exact_solution_ != nullptr), number_of_levels_,
+             VERIF_DBL(mean_residual_reduction_factor_));
 
     while (number_of_iterations_ < max_iterations_) {
+        VERIF_EV("LoopHead", "\"k\":%d", number_of_iterations_);
 
         if (verbose_ > 0) {
             std::cout << "\nit: " << number_of_iterations_;
@@ -61,6 +71,7 @@ void GMGPolar::solve()
 
             std::pair<double, double> exact_error = computeExactError(level, level.solution(), level.residual());
             exact_errors_.push_back(exact_error);
+            VERIF_EV("ExactErr", "\"k\":%d,\"errsSz\":%d", number_of_iterations_, (int)exact_errors_.size());
 
             auto end_check_exact_error = std::chrono::high_resolution_clock::now();
             t_check_exact_error +=
@@ -102,6 +113,8 @@ void GMGPolar::solve()
                 throw std::invalid_argument("Unknown ResidualNormType");
             }
             residual_norms_.push_back(current_residual_norm);
+            VERIF_EV("ResNorm", "\"k\":%d,\"normsSz\":%d,\"cur\":%s", number_of_iterations_,
+                     (int)residual_norms_.size(), VERIF_DBL(current_residual_norm));
 
             if (number_of_iterations_ == 0) {
                 initial_residual_norm          = current_residual_norm;
@@ -114,6 +127,11 @@ void GMGPolar::solve()
                 current_relative_residual_norm = current_residual_norm / initial_residual_norm;
                 const double current_residual_reduction_factor =
                     residual_norms_[number_of_iterations_] / residual_norms_[number_of_iterations_ - 1];
+                VERIF_EV("ReadFactor", "\"i\":%d,\"j\":%d,\"normsSz\":%d,\"num\":%s,\"den\":%s,\"bad\":%d",
+                         number_of_iterations_, number_of_iterations_ - 1, (int)residual_norms_.size(),
+                         VERIF_DBL(residual_norms_[number_of_iterations_]),
+                         VERIF_DBL(residual_norms_[number_of_iterations_ - 1]),
+                         (int)(current_residual_reduction_factor > 0.7));
 
                 if (verbose_ > 0) {
                     std::cout << ", ||r_k||: " << current_residual_norm;
@@ -125,6 +143,7 @@ void GMGPolar::solve()
                 if (current_residual_reduction_factor > convergence_factor &&
                     extrapolation_ == ExtrapolationType::COMBINED && full_grid_smoothing_) {
                     full_grid_smoothing_ = false;
+                    VERIF_EV("Switch", "\"k\":%d", number_of_iterations_);
                     std::cout << "Switching from full grid smoothing to standard extrapolated smoothing." << std::endl;
                 }
             }
@@ -133,6 +152,14 @@ void GMGPolar::solve()
             t_check_convergence +=
                 std::chrono::duration<double>(end_check_convergence - start_check_convergence).count();
 
+            VERIF_EV("ConvCheck",
+                     "\"k\":%d,\"cur\":%s,\"rel\":%s,\"init\":%s,\"absOn\":%d,\"absTol\":%s,\"relOn\":%d,\"relTol\":%s,"
+                     "\"res\":%d",
+                     number_of_iterations_, VERIF_DBL(current_residual_norm),
+                     VERIF_DBL(current_relative_residual_norm), VERIF_DBL(initial_residual_norm),
+                     (int)absolute_tolerance_.has_value(), VERIF_DBL(absolute_tolerance_.value_or(0.0)),
+                     (int)relative_tolerance_.has_value(), VERIF_DBL(relative_tolerance_.value_or(0.0)),
+                     (int)converged(current_residual_norm, current_relative_residual_norm));
             if (converged(current_residual_norm, current_relative_residual_norm))
                 break;
         }
@@ -142,6 +169,8 @@ void GMGPolar::solve()
         /* ------------------------- */
         auto start_solve_multigrid_iterations = std::chrono::high_resolution_clock::now();
 
+        VERIF_EV("CycleRun", "\"k\":%d,\"kind\":%d,\"ext\":%d,\"fgs\":%d", number_of_iterations_,
+                 (int)multigrid_cycle_, (int)(extrapolation_ != ExtrapolationType::NONE), (int)full_grid_smoothing_);
         switch (multigrid_cycle_) {
         case MultigridCycleType::V_CYCLE:
             if (extrapolation_ == ExtrapolationType::NONE) {
@@ -174,6 +203,7 @@ void GMGPolar::solve()
             throw std::invalid_argument("Unknown MultigridCycleType");
         }
         number_of_iterations_++;
+        VERIF_EV("CycleDone", "\"k\":%d", number_of_iterations_);
 
         auto end_solve_multigrid_iterations = std::chrono::high_resolution_clock::now();
         t_solve_multigrid_iterations +=
@@ -205,6 +235,9 @@ void GMGPolar::solve()
         }
     }
 
+    VERIF_EV("SolveEnd", "\"nIter\":%d,\"normsSz\":%d,\"errsSz\":%d,\"rho\":%s,\"fgs\":%d",
+             number_of_iterations_, (int)residual_norms_.size(), (int)exact_errors_.size(),
+             VERIF_DBL(mean_residual_reduction_factor_), (int)full_grid_smoothing_);
     auto end_solve = std::chrono::high_resolution_clock::now();
     t_solve_total += std::chrono::duration<double>(end_solve - start_solve).count();
     t_solve_total -= t_check_exact_error;
@@ -223,6 +256,7 @@ void GMGPolar::initializeSolution()
         int start_level_depth = 0;
         Level& level          = levels_[start_level_depth];
         assign(level.solution(), 0.0); // Assign zero initial guess if not using FMG
+        VERIF_EV("InitZero");
 
         /* Consider setting the boundary conditions u_D and u_D_Interior if DirBC_Interior to the initial solution */
         bool use_boundary_condition = false;
@@ -258,6 +292,7 @@ void GMGPolar::initializeSolution()
         // Solve directly on the coarsest level
         FMG_level.solution() = FMG_level.rhs();
         FMG_level.directSolveInPlace(FMG_level.solution()); // Direct solve on coarsest grid
+        VERIF_EV("FMGDirect", "\"level\":%d", FMG_start_level_depth);
 
         // Prolongate the solution from the coarsest level up to the finest, while applying Multigrid Cycles on each level
         for (int current_level = FMG_start_level_depth; current_level > 0; --current_level) {
@@ -266,9 +301,12 @@ void GMGPolar::initializeSolution()
 
             // The bi-cubic FMG interpolation is of higher order
             FMGInterpolation(current_level, next_FMG_level.solution(), FMG_level.solution());
+            VERIF_EV("FMGInterp", "\"from\":%d,\"to\":%d", current_level, current_level - 1);
 
             // Apply some FMG iterations
             for (int i = 0; i < FMG_iterations_; i++) {
+                VERIF_EV("FMGCycle", "\"level\":%d,\"it\":%d,\"kind\":%d,\"ext\":%d", current_level - 1, i,
+                         (int)FMG_cycle_, (int)(current_level - 1 == 0 && extrapolation_ != ExtrapolationType::NONE));
                 if (current_level - 1 == 0 && (extrapolation_ != ExtrapolationType::NONE)) {
                     switch (FMG_cycle_) {
                     case MultigridCycleType::V_CYCLE:
